@@ -1056,10 +1056,51 @@ theorem find?_newest (q : Nat × Nat → Bool) (l : List (Nat × Nat)) (h : Desc
       · subst hb; exact absurd hq hy
       · exact ih h.2 hf b hb hq
 
+/-- what `resolve` answers: a listed checkpoint that either HAS the id `x`, or — when no listed
+    checkpoint has the id `x` — is named `x` and is at least as new as every listed one named `x` -/
 theorem resolve_some (d : Db) (ord : List Nat) (x i : Nat) (h : resolve d ord x = some i) :
+    ∃ ts, (i, ts) ∈ d.st.cps ∧
+      (i = x ∨ ((∀ b ∈ ckList ord d.st.cps, b.1 ≠ x) ∧ nameOf d i = some x ∧
+        ∀ b ∈ ckList ord d.st.cps, nameOf d b.1 = some x → b.2 ≤ ts)) := by
+  unfold resolve at h
+  cases hi : (ckList ord d.st.cps).find? (ckIdIs x) with
+  | some a =>
+    rw [hi] at h
+    simp only [Option.some.injEq] at h
+    subst h
+    have := List.find?_some hi
+    simp only [ckIdIs, decide_eq_true_eq] at this
+    exact ⟨a.2, ckList_mem ord _ a (List.mem_of_find?_eq_some hi), Or.inl this⟩
+  | none =>
+    rw [hi] at h
+    dsimp only at h
+    cases hf : (ckList ord d.st.cps).find? (ckNameIs d x) with
+    | none => rw [hf] at h; cases h
+    | some a =>
+      rw [hf] at h
+      simp only [Option.map_some, Option.some.injEq] at h
+      subst h
+      rw [List.find?_eq_none] at hi
+      have hn := List.find?_some hf
+      simp only [ckNameIs, decide_eq_true_eq] at hn
+      refine ⟨a.2, ckList_mem ord _ a (List.mem_of_find?_eq_some hf), Or.inr ⟨?_, hn, ?_⟩⟩
+      · intro b hb e
+        exact hi b hb (by simp only [ckIdIs, decide_eq_true_eq]; exact e)
+      · intro b hb hbn
+        exact find?_newest _ _ (sortDesc_sorted _) a hf b hb
+          (by simp only [ckNameIs, decide_eq_true_eq]; exact hbn)
+
+theorem resolve_live (d : Db) (ord : List Nat) (x i : Nat) (h : resolve d ord x = some i) :
+    alHas d.st.cps i = true := by
+  obtain ⟨ts, hm, _⟩ := resolve_some d ord x i h
+  exact (alHas_iff _ _).mpr (List.mem_map_of_mem hm)
+
+/-- the one-pass lookup (`CheckpointManager::delete`; `find_by_id_or_name` before fff752bd): a
+    listed checkpoint whose id or name is `x`, at least as new as every listed one that matches -/
+theorem resolveOld_some (d : Db) (ord : List Nat) (x i : Nat) (h : resolveOld d ord x = some i) :
     ∃ ts, (i, ts) ∈ d.st.cps ∧ ckMatches d x (i, ts) = true ∧
       ∀ b ∈ ckList ord d.st.cps, ckMatches d x b = true → b.2 ≤ ts := by
-  unfold resolve at h
+  unfold resolveOld at h
   cases hf : (ckList ord d.st.cps).find? (ckMatches d x) with
   | none => rw [hf] at h; cases h
   | some a =>
@@ -1069,32 +1110,53 @@ theorem resolve_some (d : Db) (ord : List Nat) (x i : Nat) (h : resolve d ord x 
     exact ⟨a.2, ckList_mem ord _ a (List.mem_of_find?_eq_some hf), List.find?_some hf,
       find?_newest _ _ (sortDesc_sorted _) a hf⟩
 
-theorem resolve_live (d : Db) (ord : List Nat) (x i : Nat) (h : resolve d ord x = some i) :
+theorem resolveOld_live (d : Db) (ord : List Nat) (x i : Nat) (h : resolveOld d ord x = some i) :
     alHas d.st.cps i = true := by
-  obtain ⟨ts, hm, _⟩ := resolve_some d ord x i h
+  obtain ⟨ts, hm, _⟩ := resolveOld_some d ord x i h
   exact (alHas_iff _ _).mpr (List.mem_map_of_mem hm)
 
-/-- a live checkpoint matching `x` such that every OTHER live match is strictly older is the one
-    `x` resolves to, whatever the `by_tag` order -/
+/-- a live checkpoint `i` whose id or name is `x`, such that no OTHER live checkpoint has the id
+    `x` and every other live checkpoint named `x` is strictly older, is the one `x` resolves to,
+    whatever the `by_tag` order -/
 theorem resolve_eq_of_newest (d : Db) (ord : List Nat) (x i ts : Nat)
     (hn : (d.st.cps.map (·.1)).Nodup) (hm : (i, ts) ∈ d.st.cps)
-    (hx : ckMatches d x (i, ts) = true)
-    (hnew : ∀ b ∈ d.st.cps, ckMatches d x b = true → b.1 ≠ i → b.2 < ts) :
+    (hx : i = x ∨ nameOf d i = some x)
+    (hid : ∀ b ∈ d.st.cps, b.1 = x → b.1 = i)
+    (hnew : ∀ b ∈ d.st.cps, nameOf d b.1 = some x → b.1 ≠ i → b.2 < ts) :
     resolve d ord x = some i := by
   unfold resolve
-  cases hf : (ckList ord d.st.cps).find? (ckMatches d x) with
-  | none =>
-    rw [List.find?_eq_none] at hf
-    exact absurd hx (by simpa using hf _ (mem_ckList ord _ hn _ hm))
+  cases hi : (ckList ord d.st.cps).find? (ckIdIs x) with
   | some a =>
-    simp only [Option.map_some, Option.some.injEq]
-    have ha := ckList_mem ord _ a (List.mem_of_find?_eq_some hf)
-    have hle := find?_newest _ _ (sortDesc_sorted _) a hf _ (mem_ckList ord _ hn _ hm) hx
-    by_cases e : a.1 = i
-    · exact e
-    · have := hnew a ha (List.find?_some hf) e
-      simp only at hle
-      omega
+    have ha := ckList_mem ord _ a (List.mem_of_find?_eq_some hi)
+    have hax := List.find?_some hi
+    simp only [ckIdIs, decide_eq_true_eq] at hax
+    simp only [Option.some.injEq]
+    exact hid a ha hax
+  | none =>
+    dsimp only
+    rw [List.find?_eq_none] at hi
+    have hix : nameOf d i = some x := by
+      rcases hx with hx | hx
+      · exact absurd (by simp only [ckIdIs, decide_eq_true_eq]; exact hx)
+          (hi _ (mem_ckList ord _ hn _ hm))
+      · exact hx
+    cases hf : (ckList ord d.st.cps).find? (ckNameIs d x) with
+    | none =>
+      rw [List.find?_eq_none] at hf
+      exact absurd (by simp only [ckNameIs, decide_eq_true_eq]; exact hix)
+        (hf _ (mem_ckList ord _ hn _ hm))
+    | some a =>
+      simp only [Option.map_some, Option.some.injEq]
+      have ha := ckList_mem ord _ a (List.mem_of_find?_eq_some hf)
+      have han := List.find?_some hf
+      simp only [ckNameIs, decide_eq_true_eq] at han
+      have hle := find?_newest _ _ (sortDesc_sorted _) a hf _ (mem_ckList ord _ hn _ hm)
+        (by simp only [ckNameIs, decide_eq_true_eq]; exact hix)
+      by_cases e : a.1 = i
+      · exact e
+      · have := hnew a ha han e
+        simp only at hle
+        omega
 
 /-! ### the database invariant along statement sequences -/
 
@@ -1258,7 +1320,7 @@ theorem DbInv.step {d : Db} (h : DbInv d) (op : Op) : DbInv (step d op).1 := by
           h.archNodup, h.archTs c hc, h.archTs⟩
     | ckdel x o =>
       simp only [Neumann.Ckpt.step, doCkDel]
-      cases hr : resolve d o x with
+      cases hr : resolveOld d o x with
       | none => exact h
       | some i =>
         refine ⟨h.wf.setCps _, h.arch, h.ids, ?_, h.archCps, alDel_nodup _ _ h.cpsNodup, h.archNodup,
@@ -1293,7 +1355,7 @@ theorem step_arch_prefix (d : Db) (op : Op) : ∃ ext, (step d op).1.arch = d.ar
     | ckdel i o =>
       refine ⟨[], ?_⟩
       simp only [Neumann.Ckpt.step, doCkDel]
-      cases resolve d o i <;> simp
+      cases resolveOld d o i <;> simp
     | setmax n => exact ⟨[], by simp [Neumann.Ckpt.step]⟩
     | _ => simp [Op.isData] at hd
 
@@ -1416,26 +1478,61 @@ theorem rollback_ok_resolved (d : Db) (x : Nat) (o : List Nat) (h : (step d (.ro
   | none => rw [hl] at h; cases h
   | some c => exact ⟨c.id, (loadCk_mem d o x c hl).2⟩
 
-/-- a live id that no live checkpoint carries as its NAME resolves to itself -/
-theorem DbInv.resolve_id {d : Db} (h : DbInv d) (o : List Nat) (i : Nat) (hl : alHas d.st.cps i = true)
-    (hno : ∀ j, alHas d.st.cps j = true → nameOf d j ≠ some i) : resolve d o i = some i := by
+/-- a live id resolves to itself, whatever the names of the listed checkpoints and the order -/
+theorem DbInv.resolve_id {d : Db} (h : DbInv d) (o : List Nat) (i : Nat) (hl : alHas d.st.cps i = true) :
+    resolve d o i = some i := by
   obtain ⟨p, hp, hpi⟩ := List.mem_map.mp ((alHas_iff _ _).mp hl)
   have hin := mem_ckList o _ h.cpsNodup p hp
   unfold resolve
-  cases hf : (ckList o d.st.cps).find? (ckMatches d i) with
+  cases hf : (ckList o d.st.cps).find? (ckIdIs i) with
   | none =>
     rw [List.find?_eq_none] at hf
     have := hf p hin
-    simp [ckMatches, hpi] at this
+    simp [ckIdIs, hpi] at this
   | some a =>
-    simp only [Option.map_some, Option.some.injEq]
     have hm := List.find?_some hf
-    have ha := ckList_mem o _ a (List.mem_of_find?_eq_some hf)
-    unfold ckMatches at hm
-    simp only [Bool.or_eq_true, decide_eq_true_eq] at hm
-    rcases hm with hm | hm
-    · exact hm
-    · exact absurd hm (hno a.1 ((alHas_iff _ _).mpr (List.mem_map_of_mem ha)))
+    simp only [ckIdIs, decide_eq_true_eq] at hm
+    simp only [Option.some.injEq]
+    exact hm
+
+theorem find?_congr' {α} (p q : α → Bool) (l : List α) (h : ∀ a ∈ l, p a = q a) :
+    l.find? p = l.find? q := by
+  induction l with
+  | nil => rfl
+  | cons y ys ih =>
+    simp only [List.find?_cons, h y List.mem_cons_self]
+    rw [ih fun a ha => h a (List.mem_cons_of_mem _ ha)]
+
+/-- the pre-fix resolution answers like the present one unless the target is BOTH the id of a
+    listed checkpoint and the name of a listed checkpoint -/
+theorem resolveOld_eq (d : Db) (o : List Nat) (x : Nat)
+    (h : (∀ b ∈ ckList o d.st.cps, b.1 ≠ x) ∨ (∀ b ∈ ckList o d.st.cps, nameOf d b.1 ≠ some x)) :
+    resolveOld d o x = resolve d o x := by
+  unfold resolveOld resolve
+  rcases h with h | h
+  · have h1 : (ckList o d.st.cps).find? (ckIdIs x) = none := by
+      rw [List.find?_eq_none]
+      intro b hb
+      simp only [ckIdIs, decide_eq_true_eq]
+      exact h b hb
+    have h2 : (ckList o d.st.cps).find? (ckMatches d x) = (ckList o d.st.cps).find? (ckNameIs d x) := by
+      apply find?_congr'
+      intro b hb
+      have := h b hb
+      simp [ckMatches, ckNameIs, this]
+    rw [h1, h2]
+  · have h2 : (ckList o d.st.cps).find? (ckMatches d x) = (ckList o d.st.cps).find? (ckIdIs x) := by
+      apply find?_congr'
+      intro b hb
+      have := h b hb
+      simp [ckMatches, ckIdIs, this]
+    have h3 : (ckList o d.st.cps).find? (ckNameIs d x) = none := by
+      rw [List.find?_eq_none]
+      intro b hb
+      simp only [ckNameIs, decide_eq_true_eq]
+      exact h b hb
+    rw [h2, h3]
+    cases (ckList o d.st.cps).find? (ckIdIs x) <;> rfl
 
 /-! ### `RetentionManager::enforce` on a listing without duplicate ids -/
 
